@@ -382,9 +382,13 @@ def run_pbt(exe, prop, profile, cases, max_size, seed_, workers, cfgs=None, tag=
         if cfgs:
             c += ["--cfgs", ",".join(str(x) for x in cfgs)]
         cmds.append(c)
-    outs = parallel(cmds, jobs=workers, timeout=timeout)
+    outs = parallel(cmds, jobs=workers, timeout=timeout or 1800)
     stats, failures, crashes = [], [], []
-    for sp, (rc, out) in zip(stat_paths, outs):
+    for w, (sp, (rc, out)) in enumerate(zip(stat_paths, outs)):
+        if rc == 97:   # watchdog: a generated case did not finish; the case was saved
+            hp = os.path.join(od, "hang-C%02d-%s%s-s%d-w%d.case" % (prop, tag, profile, seed_, w))
+            crashes.append((97, hp))
+            continue
         try:
             s = json.load(open(sp))
             stats.append(s)
@@ -394,6 +398,15 @@ def run_pbt(exe, prop, profile, cases, max_size, seed_, workers, cfgs=None, tag=
             if rc != 0:
                 crashes.append((rc, out[-2000:]))
     return merge_stats(stats), failures, crashes
+
+
+def confirm_hang(exe, prop, path, times=3):
+    """a hang counts only if the replayer (10 s alarm; legal cases take microseconds) hangs every time"""
+    for _ in range(times):
+        rc, out = run([exe, "replay", "--prop", str(prop), "--quiet", "1", path], timeout=60)
+        if rc != 97:
+            return False
+    return True
 
 
 def confirm(exe, prop, path, times=3, env=None):
